@@ -17,3 +17,215 @@ KANI = [
     KH("c20_constraints::c20_table_two_calls_1_1", "quick", 300, "two add_constraints calls: first configured limit of a gap wins", "1+1 symbolic entries", FN),
     KH("c20_constraints::c20_table_two_calls_1_2", "quick", 400, "two add_constraints calls: first configured limit of a gap wins", "1+2 symbolic entries", FN),
 ]
+
+# ===================================================================== engine M: how compatible() uses the table
+import struct
+import z3
+from mir_engine import MQ
+from mirlib import *
+import C03 as _c03
+
+EXPLANATION += (" Engine M (bounded symbolic execution of the MIR with z3): compatible() of SortAttributes and VisualAttributes "
+                "with symbolic scene ids, epochs, idle limit and a symbolic constraint table equals 'same scene and gap <= "
+                "max idle and validate(gap, dist_in_2r(LAST predicted boxes))', hence (a) a pair farther than the limit for its "
+                "gap is never compatible (never compared, let alone attached) and (b) when the table admits the pair the "
+                "result is exactly that of the empty table; dist_in_2r is the centre distance over sqrt((r1+r2)^2+EPS), "
+                "bit-equal to an independently written term over free floats.")
+ASSUMPTIONS += ["M: constraint tables with <= 2 entries in the representation add_constraints produces (strictly increasing gaps; built by engine K's part), limits > 0 free f32",
+                "M: predicted-box histories of 1..3 boxes per track; inside compatible() dist_in_2r is replaced by one arbitrary f32 in [0,1e4] per PAIR of stored predicted boxes (its formula is a separate obligation)",
+                "M: epochs and max idle < 2^62"]
+
+
+def _mk_compat_constrained(kind, nboxes_a, nboxes_b, ncons):
+    ty = 'SortAttributes' if kind == 'sort' else 'VisualAttributes'
+    mkattrs = _c03.sort_attrs if kind == 'sort' else _c03.visual_attrs
+
+    def q(vm, P):
+        fn, info = P.impl_methods[(ty, 'TrackAttributes', 'compatible')][0]
+        ents = sym_epoch_entries(vm, 1)
+        mi = vm.fresh(64, 'max_idle')
+        vm.assume(z3.ULT(mi.e, U62))
+        cons = []
+        for i in range(ncons):
+            g = vm.fresh(64, 'gap%d' % i)
+            lim = vm.fresh('f32', 'limit%d' % i)
+            vm.assume(z3.And(z3.Not(z3.fpIsNaN(lim)), z3.fpGT(lim, f32(0.0))))
+            if cons:
+                vm.assume(z3.UGT(g.e, cons[-1][0].e))   # representation invariant of the table: sorted, no duplicate gaps
+            cons.append((g, lim))
+        opts = Cell(sort_options(P, vm, ents, mi, constraints=cons), 'opts')
+        scene_a, scene_b = vm.fresh(64, 'scene_a'), vm.fresh(64, 'scene_b')
+        last_a, last_b = vm.fresh(64, 'last_a'), vm.fresh(64, 'last_b')
+        vm.assume(z3.And(z3.ULT(last_a.e, U62), z3.ULT(last_b.e, U62)))
+        a = Cell(mkattrs(P, vm, Ref(opts), scene_a, last_a, boxes=nboxes_a, tag=1), 'a')
+        b = Cell(mkattrs(P, vm, Ref(opts), scene_b, last_b, boxes=nboxes_b, tag=2), 'b')
+        calls = []
+        dsym = {}
+        pb_idx = P.decls.field_index(ty, 'predicted_boxes')
+
+        def box_index(ref, cell):
+            if isinstance(ref, Ref) and ref.cell is cell and len(ref.path) == 2 and ref.path[0] == pb_idx:
+                return ref.path[1][1]
+            return None
+
+        def pair_dist(i, j):
+            # one arbitrary non-negative distance per pair of stored predicted boxes (functional in the pair)
+            if (i, j) not in dsym:
+                d = vm.fresh('f32', 'dist_a%d_b%d' % (i, j))
+                vm.assume(z3.And(z3.Not(z3.fpIsNaN(d)), z3.fpGEQ(d, f32(0.0)), z3.fpLEQ(d, f32(1.0e4))))
+                dsym[(i, j)] = d
+            return dsym[(i, j)]
+
+        def dist(vm_, cal, args):
+            i, j = box_index(args[0], a), box_index(args[1], b)
+            if i is None or j is None:
+                i, j = box_index(args[1], a), box_index(args[0], b)
+            vm_.check(BOOL(i is not None and j is not None), "the distance is measured between stored predicted boxes of the two tracks")
+            calls.append((i, j))
+            return pair_dist(i, j)
+        vm.spec_calls[('Universal2DBox', None, 'dist_in_2r')] = dist
+        r = vm.exec_fn(fn, [Ref(a), Ref(b)], {})
+        gap = z3.If(z3.UGE(last_a.e, last_b.e), last_a.e - last_b.e, last_b.e - last_a.e)
+        same = scene_a.e == scene_b.e
+        vm.notes.update(dist_calls=list(calls))
+        if not calls:
+            # the distance is only needed when the scenes agree
+            vm.check(z3.Not(same), "compatible() must look at the distance whenever the scenes agree")
+            vm.check(z3.Not(r), "different scenes are never compatible")
+            return
+        d = pair_dist(nboxes_a - 1, nboxes_b - 1)   # the property speaks about the LAST predicted boxes
+        # reference: limit of the smallest configured gap >= the epoch gap (table sorted by gap), none => admit
+        admit = z3.BoolVal(True)
+        for g, lim in reversed(cons):
+            admit = z3.If(z3.UGE(g.e, gap), z3.fpLEQ(d, lim), admit)
+        vm.check(r == z3.And(same, z3.ULE(gap, mi.e), admit), "compatible = same scene and gap <= max idle and validate(gap, distance of the last predicted boxes)")
+        vm.check(z3.Implies(admit, r == z3.And(same, z3.ULE(gap, mi.e))), "constraints that the pair does not violate change nothing")
+        for k, (g, lim) in enumerate(cons):
+            first_applicable = z3.And(z3.UGE(g.e, gap), *[z3.ULT(g2.e, gap) for g2, _ in cons[:k]])
+            vm.check(z3.Implies(z3.And(first_applicable, z3.fpGT(d, lim)), z3.Not(r)), "a pair farther than the limit for its gap is never compatible")
+    return q
+
+
+def q_dist_in_2r(vm, P):
+    fn = P.impl_methods[('Universal2DBox', None, 'dist_in_2r')][0][0]
+    a, b = sym_box(vm, 'a', 1.0e4), sym_box(vm, 'b', 1.0e4)
+    r = vm.exec_fn(fn, [Ref(Cell(a, 'a')), Ref(Cell(b, 'b'))], {})
+
+    def radius(bx):
+        asp, h = fld(P, bx, 'Universal2DBox', 'aspect'), fld(P, bx, 'Universal2DBox', 'height')
+        hw = f_div(f_mul(asp, h), f32(2.0))
+        hh = f_div(h, f32(2.0))
+        return z3.fpSqrt(RNE, f_add(f_mul(hw, hw), f_mul(hh, hh)))
+    rd = f_add(radius(a), radius(b))
+    x = f_sub(fld(P, a, 'Universal2DBox', 'xc'), fld(P, b, 'Universal2DBox', 'xc'))
+    y = f_sub(fld(P, a, 'Universal2DBox', 'yc'), fld(P, b, 'Universal2DBox', 'yc'))
+    eps = vm.const_value('EPS', {})
+    ref = f_div(z3.fpSqrt(RNE, f_add(f_mul(x, x), f_mul(y, y))), z3.fpSqrt(RNE, f_add(f_mul(rd, rd), eps)))
+    vm.check(z3.fpToIEEEBV(fp_plain(r)) == z3.fpToIEEEBV(ref), "dist_in_2r = centre distance / sqrt((r1+r2)^2 + EPS), bit-exact")
+
+
+COMPAT_REPLAY = r'''
+use similari::track::TrackAttributes;
+use similari::trackers::sort::{SortAttributes, SortAttributesOptions};
+use similari::trackers::spatio_temporal_constraints::SpatioTemporalConstraints;
+use similari::trackers::visual_sort::track_attributes::VisualAttributes;
+use similari::utils::bbox::Universal2DBox;
+use std::collections::VecDeque;
+use std::sync::Arc;
+
+/// reference: limit of the smallest configured gap >= the epoch gap (first configured wins), none => admit
+fn reference(table: &[(usize, f32)], gap: usize, d: f32) -> bool {
+    let mut best: Option<(usize, f32)> = None;
+    for (g, l) in table {
+        if *g >= gap && best.map(|b| *g < b.0).unwrap_or(true) { best = Some((*g, *l)); }
+    }
+    best.map(|b| d <= b.1).unwrap_or(true)
+}
+
+fn boxes(xs: &[f32]) -> VecDeque<Universal2DBox> {
+    // radius of each box = 1 (height sqrt 2, aspect 1): dist_in_2r ~ centre distance / 2
+    let h = 2.0f32.sqrt();
+    xs.iter().map(|x| Universal2DBox::new(*x, 0.0, None, 1.0, h)).collect()
+}
+
+#[test]
+fn replay() {
+    let table: Vec<(usize, f32)> = vec![%(table)s];
+    let max_idle: usize = %(max_idle)d;
+    let opts = Arc::new(SortAttributesOptions::new(None, max_idle, 0, SpatioTemporalConstraints::default().constraints(&table), 0.05, 0.00625));
+    let (scene_a, scene_b, last_a, last_b): (u64, u64, usize, usize) = (%(scene_a)d, %(scene_b)d, %(last_a)d, %(last_b)d);
+    let gap = if last_a > last_b { last_a - last_b } else { last_b - last_a };
+    // box positions realising the pairwise distances of the counterexample
+    let (ba, bb) = (boxes(&[%(xa)s]), boxes(&[%(xb)s]));
+    let real_d = Universal2DBox::dist_in_2r(ba.back().unwrap(), bb.back().unwrap());
+    let expect = scene_a == scene_b && gap <= max_idle && reference(&table, gap, real_d);
+    let mut a = %(ty)s::new(opts.clone());
+    a.scene_id = scene_a; a.last_updated_epoch = last_a; a.predicted_boxes = ba.clone(); a.observed_boxes = ba;
+    let mut b = %(ty)s::new(opts.clone());
+    b.scene_id = scene_b; b.last_updated_epoch = last_b; b.predicted_boxes = bb.clone(); b.observed_boxes = bb;
+    assert_eq!(a.compatible(&b), expect, "compatible() vs reference: gap {} distance of the last boxes {}", gap, real_d);
+    assert_eq!(b.compatible(&a), expect, "compatible() (swapped) vs reference: gap {} distance {}", gap, real_d);
+}
+'''
+
+
+def _replay_compat(kind, na, nb, ncons):
+    def render(cex, v, vm):
+        table = ", ".join("(%dusize, %s)" % (cex_get(cex, 'gap%d' % i), rust_f32(cex_get(cex, 'limit%d' % i))) for i in range(ncons))
+
+        def dval(i, j):
+            try:
+                return struct.unpack('<f', struct.pack('<I', cex_get(cex, 'dist_a%d_b%d' % (i, j))['bits']))[0]
+            except KeyError:
+                return 1.0
+        la, lb = na - 1, nb - 1
+        calls = vm.notes.get('dist_calls') or [(la, lb)]
+        i, j = calls[0]
+        xa, xb = [5.0e5] * na, [-5.0e5] * nb
+        xa[i], xb[j] = 0.0, 2.0 * dval(i, j)
+        if (i, j) != (la, lb):
+            if la == i:
+                xb[lb] = 2.0 * dval(la, lb)
+            elif lb == j:
+                xa[la] = xb[j] - 2.0 * dval(la, lb)
+            else:
+                xa[la], xb[lb] = 1.0e5, 1.0e5 + 2.0 * dval(la, lb)
+        return COMPAT_REPLAY % dict(table=table, max_idle=cex_get(cex, 'max_idle'), scene_a=cex_get(cex, 'scene_a'), scene_b=cex_get(cex, 'scene_b'),
+                                    last_a=cex_get(cex, 'last_a'), last_b=cex_get(cex, 'last_b'),
+                                    xa=", ".join("%rf32" % x for x in xa), xb=", ".join("%rf32" % x for x in xb),
+                                    ty='SortAttributes' if kind == 'sort' else 'VisualAttributes')
+    return render
+
+
+def _replay_dist(cex, v, vm):
+    def g(n):
+        return rust_f32(cex_get(cex, n))
+    return '''
+use similari::utils::bbox::Universal2DBox;
+use similari::EPS;
+#[test]
+fn replay() {
+    let a = Universal2DBox::new_with_confidence(%s, %s, None, %s, %s, %s);
+    let b = Universal2DBox::new_with_confidence(%s, %s, None, %s, %s, %s);
+    let radius = |x: &Universal2DBox| { let hw = x.aspect * x.height / 2.0; let hh = x.height / 2.0; (hw * hw + hh * hh).sqrt() };
+    let rd = radius(&a) + radius(&b);
+    let (x, y) = (a.xc - b.xc, a.yc - b.yc);
+    let expect = (x * x + y * y).sqrt() / (rd * rd + EPS).sqrt();
+    assert_eq!(Universal2DBox::dist_in_2r(&a, &b).to_bits(), expect.to_bits());
+}
+''' % (g('a_xc'), g('a_yc'), g('a_aspect'), g('a_height'), g('a_conf'), g('b_xc'), g('b_yc'), g('b_aspect'), g('b_height'), g('b_conf'))
+
+
+C = "similari::trackers::sort::SortAttributes::compatible"
+CV = "similari::trackers::visual_sort::track_attributes::VisualAttributes::compatible"
+MIR = []
+for kind, fnname in (('sort', C), ('visual', CV)):
+    for (na, nb, nc, tier) in [(1, 1, 1, 'quick'), (2, 3, 2, 'quick'), (3, 2, 0, 'quick')]:
+        MIR.append(MQ("c20_compatible_%s_b%d%d_c%d" % (kind, na, nb, nc), tier, _mk_compat_constrained(kind, na, nb, nc),
+                      "compatible() = same scene, gap <= max idle, validate(gap, dist(last boxes)); non-binding constraints change nothing; beyond the limit never compatible",
+                      "%d/%d predicted boxes, %d constraint entries (symbolic gaps, limits), symbolic scenes/epochs/idle limit" % (na, nb, nc),
+                      [fnname, "similari::trackers::spatio_temporal_constraints::SpatioTemporalConstraints::validate"],
+                      replay=_replay_compat(kind, na, nb, nc)))
+MIR.append(MQ("c20_dist_in_2r", "quick", q_dist_in_2r, "dist_in_2r formula (bit-exact term equality over free floats)",
+              "all valid boxes with |centre| <= 1e4, sizes in [1e-3,1e4]",
+              ["similari::utils::bbox::Universal2DBox::dist_in_2r", "similari::utils::bbox::Universal2DBox::get_radius"], replay=_replay_dist))
